@@ -237,6 +237,10 @@ class Verdicts:
                 return k
         return None
 
+    def has_new(self) -> bool:
+        """is there a violation so far that the known-findings file does not list"""
+        return any(self._is_known(v) is None for v in self.violations)
+
     def finish(self, level: str, coverage: Dict[str, Any], assumptions: List[str]) -> int:
         new: Dict[str, Violation] = {}
         seen_known: Dict[str, Tuple[Dict[str, Any], int]] = {}
